@@ -49,6 +49,8 @@ type op struct {
 	// restore: views derived (WithPrefix) from the restored view afterwards, as the state
 	// machine does with GetStore; newview: Prefixes[0] is derived from view View.
 	Prefixes []hx `json:"prefixes,omitempty"`
+	// restore: do not read the whole state back through every view afterwards
+	Quiet bool `json:"quiet,omitempty"`
 }
 
 type program struct {
@@ -209,6 +211,8 @@ func genProgram(r *rand.Rand, maxOps int) *program {
 			o.Key = genKey(r)
 			if r.Intn(100) < pPick {
 				o.Pick = 1 + r.Intn(16)
+			} else if r.Intn(100) < 25 {
+				o.Pick = -1 - r.Intn(16)
 			}
 		}
 		switch {
@@ -244,6 +248,7 @@ func genProgram(r *rand.Rand, maxOps int) *program {
 			for j := 1 + r.Intn(2); j > 0; j-- {
 				o.Prefixes = append(o.Prefixes, genPrefix(r))
 			}
+			o.Quiet = r.Intn(3) == 0
 		case x < 96:
 			o.K = "delsnap"
 			o.Snap = r.Intn(4)
@@ -253,6 +258,79 @@ func genProgram(r *rand.Rand, maxOps int) *program {
 		}
 		p.Ops = append(p.Ops, o)
 	}
+	p.CommitView = r.Intn(8)
+	return p
+}
+
+// genUndoProgram: the staged store is driven through "change, snapshot, change back,
+// restore" shapes and then scanned with small limits: delete database keys, snapshot,
+// write them again (or the other way round), restore, limited scans from both ends.
+func genUndoProgram(r *rand.Rand) *program {
+	p := genProgram(r, 24)
+	p.Ops = nil
+	nv := len(p.Views) + 1
+	view := r.Intn(nv)
+	if r.Intn(2) == 0 {
+		view = 0
+	}
+	var ops []op
+	bulk := func(kind string, n int) {
+		for j := 0; j < n; j++ {
+			o := op{K: kind, View: view, Key: genKey(r), Pick: -1 - r.Intn(16)}
+			if r.Intn(5) == 0 {
+				o.Pick = 1 + r.Intn(16)
+			}
+			if kind == "set" {
+				o.Val = genVal(r)
+			}
+			ops = append(ops, o)
+		}
+	}
+	scans := func(n int) {
+		for j := 0; j < n; j++ {
+			o := op{View: view, Limit: 1 + r.Intn(4), Rev: r.Intn(2) == 0}
+			if r.Intn(2) == 0 {
+				o.K = "range"
+				o.Start, o.End = hx{}, hx{0xff, 0xff, 0xff, 0xff}
+				if r.Intn(3) == 0 {
+					o.Start, o.End = genBounds(r)
+				}
+			} else {
+				o.K = "iterate"
+				o.Key = hx{}
+				if r.Intn(3) == 0 {
+					o.Key = genPrefix(r)
+				}
+			}
+			if r.Intn(4) == 0 {
+				o.View = r.Intn(nv)
+			}
+			ops = append(ops, o)
+		}
+	}
+	rounds := 1 + r.Intn(3)
+	for q := 0; q < rounds; q++ {
+		first, second := "del", "set"
+		if r.Intn(3) == 0 {
+			first, second = "set", "del"
+		}
+		bulk(first, 1+r.Intn(5))
+		ops = append(ops, op{K: "snapshot", View: view})
+		if r.Intn(3) == 0 {
+			scans(1)
+		}
+		bulk(second, 1+r.Intn(6))
+		if r.Intn(3) == 0 {
+			bulk(first, 1+r.Intn(3))
+		}
+		ro := op{K: "restore", View: view, Snap: 0, Quiet: r.Intn(4) != 0}
+		if r.Intn(2) == 0 {
+			ro.Prefixes = []hx{genPrefix(r)}
+		}
+		ops = append(ops, ro)
+		scans(2 + r.Intn(4))
+	}
+	p.Ops = ops
 	p.CommitView = r.Intn(8)
 	return p
 }
